@@ -1,2 +1,3 @@
 import LzmaProofs.Lemmas.Monad
 import LzmaProofs.Props.C01Sym
+import LzmaProofs.Props.C13
